@@ -434,6 +434,118 @@ Proof.
 Qed.
 
 (* ------------------------------------------------------------------ *)
+(* stop_on = "blank first" with the ladder starting in the first sheet column: the ladder
+   reading is a prefix of the reading of the filled-in table (finding ladder-blank-first)      *)
+
+(* b continues a: same items, then possibly more; a either agrees with b to the end or ended
+   without an exception *)
+Definition out_prefix (a b : list (option obj) * option err) : Prop :=
+  exists rest, map item_vals (fst b) = map item_vals (fst a) ++ rest /\
+               ((rest = [] /\ snd a = snd b) \/ snd a = None).
+
+Lemma out_sim_prefix a b : out_sim a b -> out_prefix a b.
+Proof. intros [H1 H2]. exists []. rewrite app_nil_r. auto. Qed.
+
+Lemma iter_rows_prefix cf bs :
+  cf_ladder cf = true -> stop_first cf = true ->
+  forall vrows r0 prevL prevP,
+    out_prefix (iter_rows cf bs (Some 0%nat) prevL (index_rows r0 vrows))
+               (iter_rows (plain_of cf) bs (Some 0%nat) prevP
+                          (index_rows r0 (vfill_body 0 (option_map (map c_val) prevL) vrows))).
+Proof.
+  intros Hlad Hstop. induction vrows as [|vs vrows IH]; intros r0 prevL prevP.
+  - apply out_sim_prefix. split; reflexivity.
+  - cbn [vfill_body]. destruct (vrow_blank vs) eqn:Eb.
+    + (* a wholly blank row ends the table in both readings (or raises in both) *)
+      apply out_sim_prefix.
+      cbn [index_rows iter_rows]. rewrite !is_end_index.
+      assert (Hv : vis_end (plain_of cf) vs = vis_end cf vs) by reflexivity. rewrite Hv.
+      destruct (vis_end cf vs) as [[|]|e] eqn:Ee; try (split; reflexivity).
+      exfalso. unfold vis_end in Ee. rewrite Hstop in Ee. destruct vs as [|v vs']; [discriminate|].
+      unfold vrow_blank in Eb. cbn in Eb. apply andb_prop in Eb as [Ev _]. rewrite Ev in Ee. discriminate.
+    + destruct vs as [|v vs']; [discriminate|].
+      destruct (val_empty v) eqn:Ev.
+      * (* "same as above" in the first column: the ladder reading ends here *)
+        cbn [index_rows iter_rows index_row]. unfold is_end at 1. rewrite Hstop.
+        unfold cell_empty. cbn [c_val]. rewrite Ev.
+        eexists. cbn [fst snd map app]. split; [reflexivity|]. right. reflexivity.
+      * (* first cell not blank: no substitution, both readings work on the sheet row itself *)
+        assert (Hcurv : match option_map (map c_val) prevL with
+                        | None => v :: vs' | Some p => vfill_row 0 p (v :: vs') end = v :: vs').
+        { destruct prevL as [p|]; cbn [option_map]; [|reflexivity].
+          unfold vfill_row. cbn [firstn skipn app vfill_from]. rewrite Ev. reflexivity. }
+        rewrite Hcurv.
+        cbn [index_rows iter_rows]. rewrite !is_end_index.
+        assert (Hv : vis_end (plain_of cf) (v :: vs') = vis_end cf (v :: vs')) by reflexivity. rewrite Hv.
+        unfold vis_end. rewrite Hstop, Ev.
+        cbn [cf_ladder plain_of]. rewrite Hlad.
+        assert (Hcur : (match prevL with
+                        | Some p => fill_row 0 p (index_row r0 0 (v :: vs'))
+                        | None => Ok (index_row r0 0 (v :: vs')) end) = Ok (index_row r0 0 (v :: vs'))).
+        { destruct prevL as [p|]; [|reflexivity].
+          unfold fill_row. cbn [index_row skipn firstn fill_from]. unfold cell_empty. cbn [c_val].
+          rewrite Ev. reflexivity. }
+        rewrite Hcur. cbn [cf_rules cf_nid plain_of].
+        destruct (construct (cf_rules cf) bs (cf_nid cf) (index_row r0 0 (v :: vs'))) as [o|e].
+        -- specialize (IH (S r0) (Some (index_row r0 0 (v :: vs'))) (Some (index_row r0 0 (v :: vs')))).
+           cbn [option_map] in IH. rewrite map_cval_index_row in IH.
+           destruct IH as [rest [IH1 IH2]].
+           destruct (iter_rows cf bs (Some 0%nat) (Some (index_row r0 0 (v :: vs'))) (index_rows (S r0) vrows))
+             as [os e1].
+           destruct (iter_rows (plain_of cf) bs (Some 0%nat) (Some (index_row r0 0 (v :: vs'))) _) as [os' e2].
+           unfold out_prefix. cbn [fst snd map] in *. exists rest. rewrite IH1. split; [reflexivity|exact IH2].
+        -- apply out_sim_prefix. split; reflexivity.
+Qed.
+
+Lemma read_cells_prefix cf :
+  cf_ladder cf = true -> stop_first cf = true ->
+  forall sh r0,
+    (forall t tvs, find_title sh r0 = Some (t, tvs) -> first_some_pos (map val_title tvs) 0 = Some 0%nat) ->
+    out_prefix (read_cells cf (index_rows r0 sh))
+               (read_cells (plain_of cf) (index_rows r0 (fill_sheet sh))).
+Proof.
+  intros Hlad Hstop. induction sh as [|vs rest IH]; intros r0 Hg.
+  - apply out_sim_prefix. split; reflexivity.
+  - cbn [fill_sheet find_title] in *. destruct (vrow_blank vs) eqn:Eb.
+    + unfold read_cells. cbn [index_rows skip_blank]. rewrite !row_empty_index, Eb.
+      apply (IH (S r0)). exact Hg.
+    + unfold read_cells. cbn [index_rows skip_blank]. rewrite !row_empty_index, Eb.
+      rewrite !titles_of_index. cbn [cf_rules plain_of].
+      destruct (bind_all (cf_rules cf) (map val_title vs)) as [bs|e];
+        [|apply out_sim_prefix; split; reflexivity].
+      rewrite (Hg r0 vs eq_refl).
+      apply (iter_rows_prefix cf bs Hlad Hstop rest (S r0) None None).
+Qed.
+
+(* For every ladder reading (both end rules): the items are a prefix of the items of the filled-in
+   table read plainly; either the two readings agree to the end (same exception, if any), or
+   stop_on = "blank first", the ladder starts in the first sheet column, and the ladder reading
+   ended without an exception (by rows_in_order: at a row whose first cell is blank). *)
+Lemma ladder_prefix_l cf sh w :
+  Forall (fun vs => length vs = w) sh -> cf_ladder cf = true ->
+  exists rest,
+    map item_vals (fst (read_table (plain_of cf) (fill_sheet sh))) =
+    map item_vals (fst (read_table cf sh)) ++ rest /\
+    ((rest = [] /\ snd (read_table cf sh) = snd (read_table (plain_of cf) (fill_sheet sh))) \/
+     (stop_first cf = true /\ first_some_pos (sheet_titles sh) 0 = Some 0%nat /\
+      snd (read_table cf sh) = None)).
+Proof.
+  intros Hw Hlad.
+  destruct (stop_first cf) eqn:Hstop.
+  2:{ destruct (ladder_equiv_gen cf sh w Hw Hlad (or_introl Hstop)) as [H1 H2].
+      exists []. rewrite app_nil_r. auto. }
+  destruct (first_some_pos (sheet_titles sh) 0) as [[|f]|] eqn:Ef.
+  - assert (Hp : out_prefix (read_table cf sh) (read_table (plain_of cf) (fill_sheet sh))).
+    { unfold read_table, index_sheet. apply (read_cells_prefix cf Hlad Hstop sh 0).
+      intros t tvs Ht. unfold sheet_titles, title_row in Ef. rewrite Ht in Ef. exact Ef. }
+    destruct Hp as [rest [H1 [H2|H2]]]; exists rest; auto.
+  - destruct (ladder_equiv_gen cf sh w Hw Hlad) as [H1 H2]; [right; rewrite Ef; discriminate|].
+    exists []. rewrite app_nil_r. auto.
+  - destruct (ladder_equiv_gen cf sh w Hw Hlad) as [H1 H2]; [right; rewrite Ef; discriminate|].
+    exists []. rewrite app_nil_r. auto.
+Qed.
+
+(* ------------------------------------------------------------------ *)
 (* ladder_origins                                                      *)
 
 Lemma nth_error_firstn' {A} : forall n (l : list A) i, (i < n)%nat -> nth_error (firstn n l) i = nth_error l i.
@@ -559,21 +671,31 @@ Proof.
   inversion H; subst. cbn. apply IH. assumption.
 Qed.
 
-(* In a ladder reading, the origin of a single-cell attribute of the object of sheet row R is a
-   cell (r, c) with title+1 <= r <= R that holds exactly what the filled-in table has at (R, c);
-   and it is the object's own cell (r = R) whenever that cell is not blank. *)
-Lemma ladder_origins_l cf sh w items e t tvs j o i v r c :
+Lemma assoc_get_in {A} k (v : A) : forall d, assoc_get k d = Some v -> In (k, v) d.
+Proof.
+  induction d as [|[k' v'] d IH]; intros H; [discriminate|]. cbn [assoc_get] in H.
+  destruct (str_eqb k k') eqn:E.
+  - apply str_eqb_eq in E. subst k'. injection H as ->. left. reflexivity.
+  - right. apply IH. exact H.
+Qed.
+
+(* In a ladder reading, every origin (r, c) of the object of sheet row R = t+1+j -- the origin of
+   a single-cell attribute, or the origin recorded under some key of a ranged attribute -- is a
+   cell with title+1 <= r <= R that holds exactly what the filled-in table has at (R, c); and it
+   is the object's own cell (r = R) whenever that cell is not blank. *)
+Lemma ladder_origins_l cf sh w items e t tvs j o i v og r c :
   Forall (fun vs => length vs = w) sh ->
   cf_ladder cf = true ->
   read_table cf sh = (items, e) ->
   title_row sh = Some (t, tvs) ->
   nth_error items j = Some (Some o) ->
-  nth_error (o_attrs o) i = Some (v, OCell r c) ->
+  nth_error (o_attrs o) i = Some (v, og) ->
+  (og = OCell r c \/ exists d k, og = ORange d /\ assoc_get k d = Some (r, c)) ->
   (S t <= r <= S t + j)%nat /\
   (exists x, cell_at sh r c = Some x /\ cell_at (fill_sheet sh) (S t + j) c = Some x) /\
   (forall y, cell_at sh (S t + j) c = Some y -> val_empty y = false -> r = (S t + j)%nat).
 Proof.
-  intros Hw Hlad Hread Ht Hj Hi.
+  intros Hw Hlad Hread Ht Hj Hi Hog.
   pose proof (read_table_run cf sh) as H. rewrite Ht in H.
   destruct H as [H1 [H2 [H3 H4]]]. cbv zeta in H4.
   destruct (bind_all (cf_rules cf) (map val_title tvs)) as [bs|e0] eqn:Eb.
@@ -587,15 +709,6 @@ Proof.
     as [[vs [Hvs Hraw]] Hrow].
   destruct (run_construct _ _ _ _ _ _ _ Hrun j st Est) as [_ Hc]. rewrite Hj in Hc.
   pose proof (construct_ok _ _ _ _ _ _ Eb Hc) as Hok.
-  (* the attribute *)
-  destruct (Forall2_nth_r _ _ _ _ _ Hok Hi) as [ru [_ Ha]].
-  unfold attr_ok in Ha. cbn [snd fst] in Ha.
-  destruct ru as [col cv def|d|isd cv hd]; try contradiction.
-  destruct Ha as [idx [x [sv [Hx1 [Hx2 [Hx3 _]]]]]].
-  destruct (row_ok_nth _ _ _ _ _ _ _ Hrow Hx1) as [G1 [G2 G3]]. cbn in G2.
-  assert (Hx1' : nth_error (st_cur st) c = Some x) by (replace c with idx by congruence; exact Hx1).
-  clear Hx1 G2. subst r.
-  split; [exact G3|].
   (* the body rows are the sheet rows below the title *)
   assert (Hbody : body = skipn (S t) sh).
   { apply nth_error_ext'. intros k. rewrite Hb, nth_error_skipn'. reflexivity. }
@@ -606,19 +719,44 @@ Proof.
     by (intros p Hp; discriminate).
   destruct (run_ladder_inv cf bs f w Hlad body (S t) None tr e1 Hwb Hnone' Hrun j st Est)
     as [Hfill Hkeep].
-  cbn [option_map] in Hfill. split.
-  - exists (c_val x). split; [rewrite <- Hx3; exact G1|].
-    unfold cell_at.
-    pose proof (fill_sheet_body sh 0 t tvs f Ht Hf j) as Hfs. rewrite Nat.sub_0_r in Hfs.
-    rewrite Hfs, <- Hbody, Hfill. rewrite nth_error_map, Hx1'. reflexivity.
-  - intros y Hy Hne. unfold cell_at in Hy. rewrite Hvs in Hy.
-    assert (Hy' : nth_error (st_raw st) c = Some (mkCell (S t + j) c y)).
-    { rewrite Hraw. clear - Hy. 
-      assert (G : forall R ws c0 k, nth_error ws k = Some y ->
-                  nth_error (index_row R c0 ws) k = Some (mkCell R (c0 + k) y)).
-      { clear. intros R. induction ws as [|v ws IH]; intros c0 [|k] H; cbn in H; try discriminate.
-        - injection H as ->. cbn. rewrite Nat.add_0_r. reflexivity.
-        - cbn [index_row nth_error]. rewrite (IH (S c0) k H). f_equal. f_equal. lia. }
-      apply (G (S t + j)%nat vs 0%nat c Hy). }
-    rewrite (Hkeep c _ Hy' Hne) in Hx1'. injection Hx1' as <-. reflexivity.
+  cbn [option_map] in Hfill.
+  (* the claim for any cell x of the row handed to construct *)
+  assert (Core : forall idx x, nth_error (st_cur st) idx = Some x ->
+            (S t <= c_row x <= S t + j)%nat /\
+            (exists xv, cell_at sh (c_row x) (c_col x) = Some xv /\
+                        cell_at (fill_sheet sh) (S t + j) (c_col x) = Some xv) /\
+            (forall y, cell_at sh (S t + j) (c_col x) = Some y -> val_empty y = false ->
+                       c_row x = (S t + j)%nat)).
+  { intros idx x Hx1.
+    destruct (row_ok_nth _ _ _ _ _ _ _ Hrow Hx1) as [G1 [G2 G3]]. cbn in G2.
+    assert (Hx1' : nth_error (st_cur st) (c_col x) = Some x) by (rewrite G2; exact Hx1).
+    split; [exact G3|]. split.
+    - exists (c_val x). split; [exact G1|].
+      unfold cell_at.
+      pose proof (fill_sheet_body sh 0 t tvs f Ht Hf j) as Hfs. rewrite Nat.sub_0_r in Hfs.
+      rewrite Hfs, <- Hbody, Hfill. rewrite nth_error_map, Hx1'. reflexivity.
+    - intros y Hy Hne. unfold cell_at in Hy. rewrite Hvs in Hy.
+      assert (Hy' : nth_error (st_raw st) (c_col x) = Some (mkCell (S t + j) (c_col x) y)).
+      { rewrite Hraw. clear - Hy. revert Hy. generalize (c_col x) as cc. intros cc Hy.
+        assert (G : forall R ws c0 k, nth_error ws k = Some y ->
+                    nth_error (index_row R c0 ws) k = Some (mkCell R (c0 + k) y)).
+        { clear. intros R. induction ws as [|v ws IH]; intros c0 [|k] H; cbn in H; try discriminate.
+          - injection H as ->. cbn. rewrite Nat.add_0_r. reflexivity.
+          - cbn [index_row nth_error]. rewrite (IH (S c0) k H). f_equal. f_equal. lia. }
+        apply (G (S t + j)%nat vs 0%nat cc Hy). }
+      rewrite (Hkeep _ _ Hy' Hne) in Hx1'. injection Hx1' as Hx. rewrite <- Hx. reflexivity. }
+  (* the attribute *)
+  destruct (Forall2_nth_r _ _ _ _ _ Hok Hi) as [ru [_ Ha]].
+  unfold attr_ok in Ha. cbn [snd fst] in Ha.
+  destruct Hog as [->|[d [k [-> Hk]]]].
+  - destruct ru as [col cv def|d|isd cv hd]; try contradiction.
+    destruct Ha as [idx [x [sv [Hx1 [Hx2 [Hx3 _]]]]]].
+    destruct (Core idx x Hx1) as [C1 [C2 C3]]. rewrite Hx2, Hx3 in *. auto.
+  - destruct ru as [col cv def|d0|isd cv hd]; try contradiction.
+    destruct Ha as [ids [cells [_ [Hcells [_ ->]]]]].
+    apply assoc_get_in, dict_of_in, in_combine_r in Hk.
+    apply in_map_iff in Hk as [x [Hx Hin]]. unfold cpos in Hx. injection Hx as Hx2 Hx3.
+    apply In_nth_error in Hin as [n Hn].
+    destruct (Forall2_nth_r _ _ _ _ _ Hcells Hn) as [idx [_ Hx1]].
+    destruct (Core idx x Hx1) as [C1 [C2 C3]]. rewrite Hx2, Hx3 in *. auto.
 Qed.
